@@ -54,6 +54,19 @@ Proof.
 Qed.
 Print Assumptions tie_qsel_whole.
 
+(* C16_quota_selector, restated of the generated method *)
+Corollary gen_C16_quota_selector : forall quota ae select votes n,
+  Gen.Approval.QuotaSelector_evaluate quota ae (qsel_setting select) votes n =
+    let over := filter (fun cv => fulfills ae (snd cv) (quota (py_sum_values votes) n)) votes in
+    if (n <? Z.of_nat (length over))%Z && negb select then inr PyVotingSystemError
+    else inl (get_n_best Qle_bool over (Z.to_nat n)).
+Proof.
+  intros quota ae select votes n. rewrite tie_qsel_whole. unfold qsel_evaluate. cbv zeta.
+  change (py_sum_values votes) with (qsumv votes).
+  destruct ((n <? Z.of_nat (length (filter (fun cv => fulfills ae (snd cv) (quota (qsumv votes) n)) votes)))%Z && negb select); reflexivity.
+Qed.
+Print Assumptions gen_C16_quota_selector.
+
 Theorem GenTie_Approval :
   (forall ae qval v, Gen.Approval.QuotaSelector_test ae qval v = fulfills ae v qval) /\
   (forall quota ae votes n, Gen.Approval.QuotaSelector_over_quota quota ae votes n =
